@@ -1,7 +1,12 @@
 """C09"""
 PROPERTY = "C09"
 LEVEL = "proof"
-FUNCTIONS = ['uxarray.grid.intersections.fast_constant_lat_intersections']
+FUNCTIONS = ['uxarray.grid.intersections.fast_constant_lat_intersections',
+    'uxarray.core.dataarray.UxDataArray._slice_from_grid@dims=time,n_face',
+    'uxarray.core.dataarray.UxDataArray._slice_from_grid@dims=n_face',
+    'uxarray.core.dataarray.UxDataArray._slice_from_grid@dims=n_node',
+    'uxarray.core.dataarray.UxDataArray._slice_from_grid@dims=lev,n_edge',
+    'uxarray.core.dataarray.UxDataArray._slice_from_grid@dims=time']
 STANDINS = ["subsets"]
 ASSUMPTIONS = []
 EXPLANATION = ""
